@@ -94,9 +94,24 @@ def run(ctx: Context) -> None:
               and mflow.reaches(other, lambda n: isinstance(n, ast.Call) and callee(ctx, md, n) == f"{MASKING}.find_fill_value"))
         ctx.check('R08.2', ok, "values are kept where the mask is True and replaced by the fill value elsewhere: data_array.where(mask, other=fill)", md, w,
                   construct=norm_text(w))
-        g = [(norm_text(st.test), inb) for st, inb in enclosing_ifs(md, w)]
-        ok = ok_loop and g == [(f"dimensions >= set({mvar}.dims)", True)] and any(
-            isinstance(n, ast.Assign) and norm_text(n) == f"dimensions = set({d_p}.dims)" for n in md.body)
+        from .common import guards
+        g = guards(md, w)
+        ok = False
+        if ok_loop and len(g) == 1 and g[0][1] is True:
+            from .common import positive_conditions as _pc
+            conds = [t for t, pol in _pc(md, w) if not isinstance(t, ast.BoolOp)]
+            t = conds[0]
+            if isinstance(t, ast.Compare) and len(t.ops) == 1:
+                a, b = mflow.resolve(t.left), mflow.resolve(t.comparators[0])
+                if isinstance(t.ops[0], ast.LtE):
+                    a, b = b, a
+                if isinstance(t.ops[0], (ast.GtE, ast.LtE)):
+                    ok = norm_text(a) == f"set({d_p}.dims)" and norm_text(b) == f"set({mvar}.dims)"
+            elif isinstance(t, ast.Call) and isinstance(t.func, ast.Attribute) and t.func.attr in ('issuperset', 'issubset') and len(t.args) == 1:
+                a, b = mflow.resolve(t.func.value), mflow.resolve(t.args[0])
+                if t.func.attr == 'issubset':
+                    a, b = b, a
+                ok = norm_text(a) == f"set({d_p}.dims)" and norm_text(b) in (f"set({mvar}.dims)", f"{mvar}.dims")
         ctx.check('R08.2', ok, "a mask applies when all of its dimensions are dimensions of the variable", md, w, construct=f"mask applicability test {g}")
         rets = md.returns()
         in_loop = [r for r in rets if any(x is r for x in ast.walk(lps[0]))] if lps else []
@@ -118,31 +133,31 @@ def run(ctx: Context) -> None:
     with ctx.section('R08.3'):
         cb = ctx.func(f"{MASKING}.calculate_grid_mask_bounds")
         cflow = ctx.flow(cb)
-        nexts = [c for c in calls_in(cb, nested=True) if dotted(c.func) == 'next' and c.args and isinstance(c.args[0], ast.GeneratorExp)]
-        lo_ok = hi_ok = False
-        for c in nexts:
-            g = c.args[0]
-            gen = g.generators[0]
-            itx = norm_text(gen.iter)
-            filt = len(gen.ifs) == 1 and isinstance(gen.ifs[0], ast.Name) and isinstance(gen.target, ast.Tuple) and gen.ifs[0].id == norm_text(gen.target.elts[1])
-            ivar = norm_text(gen.target.elts[0]) if isinstance(gen.target, ast.Tuple) else None
-            if itx == 'enumerate(values)' and filt and norm_text(g.elt) == ivar:
-                lo_ok = True
-            if itx == 'enumerate(reversed(values))' and filt:
-                form = linear(cflow, g.elt, {ivar: symbol('i')})
-                want = symbol(cflow.canon(ast.parse('len(values)', mode='eval').body)) if False else None
-                # len(values) - i  : position i from the end, exclusive upper bound = (len-1-i) + 1
-                hi_ok = isinstance(g.elt, ast.BinOp) and isinstance(g.elt.op, ast.Sub) and norm_text(g.elt.left) == 'len(values)' and norm_text(g.elt.right) == ivar
-        ctx.check('R08.3', lo_ok, "lower bound = position of the first True", cb, nexts[0] if nexts else cb.node, construct='min_index = next(i for i, v in enumerate(values) if v)')
-        ctx.check('R08.3', hi_ok, "upper bound = (position of the last True) + 1 = len - (position from the end)", cb, nexts[-1] if nexts else cb.node,
-                  construct='max_index = next(len(values) - i for i, v in enumerate(reversed(values)) if v)')
-        sl = [n for n in ast.walk(cb.node) if isinstance(n, ast.Assign) and norm_text(n.targets[0]) == 'bounds[dimension]']
-        ok = len(sl) == 1 and norm_text(sl[0].value) == 'slice(min_index, max_index)'
-        ctx.check('R08.3', ok, "the window is slice(lower, upper) for that dimension", cb, sl[0] if sl else cb.node)
-        vs = [n for n in ast.walk(cb.node) if isinstance(n, ast.Assign) and norm_text(n.targets[0]) == 'values']
-        ok = len(vs) == 1 and norm_text(vs[0].value) == 'mask_data_array.any(dim=list(dimensions_set - {dimension}))' and \
-            any(isinstance(n, ast.For) and norm_text(n.iter) == 'mask_data_array.dims' and norm_text(n.target) == 'dimension' for n in ast.walk(cb.node))
-        ctx.check('R08.3', ok, "per dimension, a position counts when any cell of the mask at that position is True", cb, vs[0] if vs else cb.node)
+        from ..pattern import Matcher
+        mcb = Matcher(ctx, cb)
+        mask_p = cb.params[0]
+        outer = mcb.stmt(f"for $mname, $marr in {mask_p}.data_vars.items():\n    ...")
+        inner = mcb.stmt('for $dim in $marr.dims:\n    ...', within=outer) if outer is not None else None
+        vs = None
+        if inner is not None:
+            for alt in ('$occ = $marr.any(dim=list(set($marr.dims) - {$dim}))', '$occ = $marr.any(dim=set($marr.dims) - {$dim})',
+                        '$occ = $marr.any(dim=[$d for $d in $marr.dims if $d != $dim])'):
+                vs = vs or mcb.stmt(alt, within=inner)
+        ctx.check('R08.3', vs is not None, "per dimension, a position counts when any cell of the mask at that position is True", cb, vs or inner or cb.node,
+                  construct=f"occupied = {norm_text(vs.value) if vs is not None else 'not recognised'}")
+        lo = mcb.stmt('$lo = next($i for $i, $v in enumerate($occ) if $v)', within=inner) if vs is not None else None
+        ctx.check('R08.3', lo is not None, "lower bound = position of the first True", cb, lo or cb.node, construct='lower = next(i for i, v in enumerate(occupied) if v)')
+        hi = None
+        if vs is not None:
+            for alt in ('$hi = next(len($occ) - $j for $j, $w in enumerate(reversed($occ)) if $w)',
+                        '$hi = next($occ.size - $j for $j, $w in enumerate(reversed($occ)) if $w)',
+                        '$hi = len($occ) - next($j for $j, $w in enumerate(reversed($occ)) if $w)'):
+                hi = hi or mcb.stmt(alt, within=inner)
+        ctx.check('R08.3', hi is not None, "upper bound = (position of the last True) + 1 = len - (position from the end)", cb, hi or cb.node,
+                  construct='upper = next(len(occupied) - i for i, v in enumerate(reversed(occupied)) if v)')
+        sl = mcb.stmt('$bounds[$dim] = slice($lo, $hi)', within=inner) if lo is not None and hi is not None else None
+        ok = sl is not None and bool(cb.returns()) and all(isinstance(r.value, ast.Name) and r.value.id == mcb.name('bounds') for r in cb.returns())
+        ctx.check('R08.3', ok, "the window is slice(lower, upper) for that dimension", cb, sl or cb.node, construct='bounds[dimension] = slice(lower, upper)')
 
     # ------------------------------------------------------------------ R08.4 / R08.5 mesh
     with ctx.section('R08.4 / R08.5 mesh'):
@@ -198,21 +213,59 @@ def run(ctx: Context) -> None:
         ctx.check('R08.4', not conts, "no other exit skips a variable", ac, conts[0] if conts else lp, construct=f"early exits in the loop: {len(conts)}")
         inner = [n for n in ast.walk(lp) if isinstance(n, ast.For)]
         inner = [n for n in inner if n is not lp]
+        def is_full_slice(e) -> bool:
+            e = aflow.resolve(e)
+            if isinstance(e, ast.Subscript) and norm_text(e.value).endswith('s_') and isinstance(e.slice, ast.Slice) \
+                    and e.slice.lower is None and e.slice.upper is None and e.slice.step is None:
+                return True
+            return isinstance(e, ast.Call) and dotted(e.func) == 'slice' and 1 <= len(e.args) <= 3 and all(const_value(x, 0) is None for x in e.args)
+
+        def segments(e):
+            """[('full', count canon) | ('item', node)] for an index tuple built from displays, + and *."""
+            e = aflow.resolve(e)
+            if isinstance(e, ast.Call) and isinstance(e.func, ast.Name) and e.func.id in ('tuple', 'list') and len(e.args) == 1:
+                return segments(e.args[0])
+            if isinstance(e, ast.BinOp) and isinstance(e.op, ast.Add):
+                l, r = segments(e.left), segments(e.right)
+                return None if l is None or r is None else l + r
+            if isinstance(e, ast.BinOp) and isinstance(e.op, ast.Mult):
+                for seq_, n_ in ((e.left, e.right), (e.right, e.left)):
+                    sq = aflow.resolve(seq_)
+                    if isinstance(sq, (ast.List, ast.Tuple)) and len(sq.elts) == 1 and is_full_slice(sq.elts[0]):
+                        return [('full', aflow.canon(n_))]
+                return None
+            if isinstance(e, (ast.List, ast.Tuple)):
+                return [('full', ('const', '1')) if is_full_slice(x) else ('item', x) for x in e.elts]
+            return None
+
         ok = False
         if len(inner) == 1:
             il = inner[0]
-            ok = norm_text(il.iter) == 'enumerate(data_array.dims)' and norm_text(il.target) == '(index, dim)'
-            sl = [n for n in ast.walk(il) if isinstance(n, ast.Assign) and norm_text(n.targets[0]) == 'slice_index']
-            ap = [n for n in ast.walk(il) if isinstance(n, ast.Assign) and norm_text(n.targets[0]) == 'values']
-            ok = ok and len(sl) == 1 and norm_text(sl[0].value) == 'tuple([numpy.s_[:]] * index + [dimension_masks[dim]])' \
-                and len(ap) == 1 and norm_text(ap[0].value) == 'values[slice_index]' \
-                and all(('dim in dimension_masks', True) in [(norm_text(st.test), inb) for st, inb in enclosing_ifs(ac, x)] for x in sl + ap)
+            it = aflow.resolve(il.iter)
+            ok = (isinstance(it, ast.Call) and dotted(it.func) == 'enumerate' and len(it.args) == 1 and norm_text(it.args[0]) == 'data_array.dims'
+                  and isinstance(il.target, ast.Tuple) and len(il.target.elts) == 2 and all(isinstance(x, ast.Name) for x in il.target.elts))
+            if ok:
+                ivar, dvar = il.target.elts[0].id, il.target.elts[1].id
+                picks = [n for n in ast.walk(il) if isinstance(n, ast.Assign) and isinstance(n.value, ast.Subscript) and isinstance(n.targets[0], ast.Name)
+                         and isinstance(n.value.value, ast.Name) and n.value.value.id == n.targets[0].id]
+                ok = len(picks) == 1
+                if ok:
+                    from .common import guards
+                    sg = segments(picks[0].value.slice)
+                    if sg is not None and len(sg) == 2 and sg[0][0] == 'full' and sg[1][0] == 'item':
+                        cnt_ok = any(isinstance(n, ast.Name) and n.id == ivar for n, _ in aflow.expand(picks[0].value.slice)) and \
+                            isinstance(sg[0][1], tuple) and sg[0][1][0] == 'iter' and sg[0][1][2] == (0,)
+                        item = aflow.resolve(sg[1][1])
+                        item_ok = isinstance(item, ast.Subscript) and norm_text(item.value) == 'dimension_masks' and isinstance(item.slice, ast.Name) and item.slice.id == dvar
+                        ok = cnt_ok and item_ok and (f"{dvar} in dimension_masks", True) in guards(ac, picks[0])
+                    else:
+                        ok = False
         ctx.check('R08.4', ok, "rows are selected with the mask of that dimension at that dimension's own axis position", ac, inner[0] if inner else lp)
         rebuilt = [c for c in calls_in(ac) if (callee(ctx, ac, c) or '').endswith('xarray.DataArray') and any(x is c for x in ast.walk(lp))]
         ok = len(rebuilt) == 1 and {k.arg: norm_text(k.value) for k in rebuilt[0].keywords} == {'data': 'values', 'dims': 'data_array.dims', 'name': 'name'}
         ctx.check('R08.4', ok, "the selected values keep the variable's dimensions and name", ac, rebuilt[0] if rebuilt else lp)
         mdims = [n for n in walk_no_nested(ac.node) if isinstance(n, ast.Assign) and norm_text(n.targets[0]) == 'mesh_dimensions']
-        ok = len(mdims) == 1 and norm_text(mdims[0].value) == 'set(dimension_masks.keys())'
+        ok = len(mdims) == 1 and norm_text(mdims[0].value) == 'set(dimension_masks)'
         ctx.check('R08.4', ok, "the mesh dimensions are exactly the dimensions that have a row mask", ac, mdims[0] if mdims else ac.node)
         # R08.5: coordinates forwarded unchanged into an output dataset
         for c in calls_in(ac):
@@ -241,11 +294,12 @@ def run(ctx: Context) -> None:
         rets = ff.returns()
         seq = []
         for r in sorted(rets, key=lambda r: r.lineno):
-            tests = [norm_text(st.test) for st, inb in enclosing_ifs(ff, r) if inb]
-            seq.append((norm_text(r.value), tests))
-        ok = (len(seq) == 3 and seq[0] == ('numpy.ma.masked', ['numpy.ma.is_masked(data_array.values)'])
-              and seq[1] == ('data_array.attrs[attr]', ['attr in data_array.attrs'])
-              and seq[2][0] == 'fill_value' and seq[2][1] == ['promoted_dtype == data_array.dtype'])
+            seq.append((norm_text(r.value), guards(ff, r)))
+        dp = ff.params[0]
+        ok = (len(seq) == 3 and seq[0] == ('numpy.ma.masked', [(f'numpy.ma.is_masked({dp}.values)', True)])
+              and seq[1][0] == f'{dp}.attrs[attr]' and (f'attr in {dp}.attrs', True) in seq[1][1] and (f'numpy.ma.is_masked({dp}.values)', False) in seq[1][1] and len(seq[1][1]) == 2
+              and seq[2][0] == 'fill_value' and (f'promoted_dtype == {dp}.dtype', True) in seq[2][1]
+              and {c for c in seq[2][1]} <= {(f'promoted_dtype == {dp}.dtype', True), (f'numpy.ma.is_masked({dp}.values)', False), (f'attr in {dp}.attrs', False)})
         ctx.check('R08.6', ok, "masked data first; then an attribute that is present (membership test, any value); then the dtype's own missing value", ff, ff.node,
                   construct=f"returns: {seq}")
         attrs = [n for n in walk_no_nested(ff.node) if isinstance(n, ast.Assign) and norm_text(n.targets[0]) == 'attrs']
